@@ -39,15 +39,29 @@ class RecordLoop:
         return loops[0]
 
     def _aliases(self):
+        """Locals bound to a fixed slice of the record.  A slice passed through
+        string methods (``line[0:6].rstrip().ljust(6)``) still counts as an
+        alias of those columns but is remembered in ``self.transformed``: the
+        comparisons then no longer see the raw columns."""
         res = {}
+        self.transformed = {}
         for node in walk_no_nested(self.loop):
             if isinstance(node, ast.Assign) and len(node.targets) == 1 \
-                    and isinstance(node.targets[0], ast.Name) \
-                    and isinstance(node.value, ast.Subscript) \
-                    and dotted(node.value.value) == self.line:
-                rng = subscript_range(node.value)
-                if rng is not None:
-                    res.setdefault(node.targets[0].id, []).append((rng, node))
+                    and isinstance(node.targets[0], ast.Name):
+                val = node.value
+                chain = []
+                while isinstance(val, ast.Call) and isinstance(val.func, ast.Attribute) \
+                        and val.func.attr in ('strip', 'rstrip', 'lstrip', 'ljust', 'rjust', 'upper',
+                                              'lower', 'replace', 'center', 'expandtabs', 'casefold',
+                                              'title', 'zfill', 'removesuffix', 'removeprefix'):
+                    chain.append(val.func.attr)
+                    val = val.func.value
+                if isinstance(val, ast.Subscript) and dotted(val.value) == self.line:
+                    rng = subscript_range(val)
+                    if rng is not None:
+                        res.setdefault(node.targets[0].id, []).append((rng, node))
+                        if chain:
+                            self.transformed[node.targets[0].id] = (norm(node.value), node)
         return res
 
     def slice_of(self, expr):
@@ -265,5 +279,40 @@ def check_terminus_latch(ctx, rule, rl):
     ctx.ob(rule, 'terminal:attached-then-cleared', ok,
            'the tag is stored on the atom before it is yielded and reset afterwards, for every '
            'record', rl.mod, attach[0] if attach else rl.atom_block)
+    # records that are filtered out (ignored residues, unselected chains) must
+    # not take part in the bookkeeping: every `if ...: continue` filter of the
+    # atom block comes before the first statement that writes the latch state
+    first_write = None
+    for i_, stmt in enumerate(rl.atom_block.body):
+        if rl.state_writes(stmt):
+            first_write = i_
+            break
+    late = [st for i_, st in rl.filters() if first_write is not None and i_ > first_write]
+    ctx.ob(rule, 'latch:filters-precede-bookkeeping', first_write is not None and not late,
+           'every record filter of the atom block precedes the terminus bookkeeping, so a record '
+           'that is skipped neither consumes nor re-arms the N-terminus latch (late filters: %s)'
+           % [norm(st.test)[:50] for st in late], rl.mod, late[0] if late else rl.atom_block)
     ctx.need(rule, 8)
 
+
+
+def check_raw_record_fields(ctx, rule, rl):
+    """The record loop compares record fields as the raw fixed columns: no
+    local holding a slice of the record is passed through a string method
+    first.  (Stripping or padding a slice that can contain the line terminator
+    makes the outcome depend on how the source delivered line ends - a file
+    opened in text mode and an in-memory stream differ there - and case or
+    white-space normalisation merges records that the format distinguishes.)"""
+    from sa.canon import canon
+    import re
+    it = canon(rl.fn).text(rl.loop.iter)
+    raw_lines = bool(re.match(r'^\w+(\.readlines\(\))?$', it))
+    ctx.ob(rule, 'reader:records-are-raw-lines', raw_lines,
+           'the record loop iterates the lines of the source as they are (readlines() or the '
+           'handle itself), not a stripped or otherwise rewritten copy: trailing blanks are part '
+           'of fixed-column records such as "TER   " (iterates: %s)' % it, rl.mod, rl.loop)
+    bad = sorted(rl.transformed.items())
+    ctx.ob(rule, 'reader:record-fields-raw', not bad,
+           'record fields are compared as raw columns (%d slice locals; transformed: %s)'
+           % (len(rl.aliases), {k: v[0] for k, v in bad}), rl.mod,
+           bad[0][1][1] if bad else rl.loop)
